@@ -7,6 +7,8 @@ from pymemcache.client import retrying as R
 
 PROPERTY = "C17"
 LEVEL = "exploration"
+# parts repeated in a child interpreter started with -O and with warnings turned into errors (vlib/runner.py, MODES)
+MODE_PARTS = {"OW": ['configurations', 'dunder', 'decision-table', 'results-of-any-kind', 'wrapped-instances']}
 RULE = ("exhaustive: attempts 1..A x every outcome sequence of that length over {ok, Base, SubA(Base), SubB(Base), "
         "Other, OSError} cut at the first ok x every disjoint (retry_for, do_not_retry_for) pair of subsets of the "
         "classes (None when empty) x {tuple, list, set} spelling x retry_delay {0, 0.25} x method name; quick: A=4 and "
